@@ -154,6 +154,18 @@ uid = Server
 """
 
 
+BASE00 = """[general]
+family = Fedora
+version = 20
+arch = x86_64
+timestamp = 1386857206.026026
+variant = Fedora
+packagedir = Packages
+repository = .
+
+"""
+
+
 def gen_sections(rng, n):
     hexd = "0123456789abcdef"
     cases = []
@@ -181,4 +193,13 @@ def gen_sections(rng, n):
             entries.append([path, val])
         text = BASE + "[checksums]\n" + "".join("%s = %s\n" % (p, v) for p, v in entries) + "\n"
         cases.append({"text": text, "entries": entries})
+    # pre-productmd files (no [header]): relative keys are taken as they are, whatever directory names they contain
+    for _ in range(max(10, n // 5)):
+        entries = []
+        for i, path in enumerate(rng.sample(["x86_64/os/images/boot.iso", "i386/os/images/boot.iso", "images/boot.iso", "os/images/boot.iso",
+                                             "tree/os/repodata/repomd.xml", "repodata/repomd.xml", "a/os/b/os/c"], rng.randint(2, 4))):
+            L = rng.choice([32, 40, 64])
+            entries.append([path, rng.choice(["", "sha256:", "md5:"]) + rstr(rng, hexd, L, L)])
+        text = BASE00 + "[checksums]\n" + "".join("%s = %s\n" % (p, v) for p, v in entries) + "\n"
+        cases.append({"text": text, "entries": entries, "legacy00": True})
     return cases
